@@ -4,6 +4,7 @@ import ChipFiring.Theory.JsonText
 import ChipFiring.Theory.OrientRT
 import ChipFiring.Theory.Serial
 import Std.Data.String.ToInt
+import Mathlib.Data.List.Nodup
 /-
   C15 — Save/load round-trips every object; damaged files never raise.
 
@@ -237,5 +238,79 @@ example : JsonText.openAtEnd ['{'] = true ∧ JsonText.openAtEnd (JsonText.dumps
 
 example : JsonText.openAtEnd (JsonText.dumps (JsonText.divisorJV [['a'], ['"', ']', 'é']] [(['a'], ['"', ']', 'é'], 2)]
     [(['a'], -3), (['"', ']', 'é'], 7)])) = false := by decide +kernel
+
+/-- the edge records `to_txt` writes for a graph whose vertex `v` is called `nm v` -/
+def namedEdges (G : Graph n) (nm : Fin n → Txt.Str) : List Txt.Edge :=
+  G.edgeList.map fun e => (nm e.1, nm e.2.1, (e.2.2 : Int))
+
+/-- the constructor finds a vertex by its name: here, its position in the (sorted, duplicate-free)
+    name list that the harness and the model use as the vertex index -/
+def resolveEdges (names : List Txt.Str) (es : List Txt.Edge) : List (Nat × Nat × Int) :=
+  es.map fun e => (names.idxOf e.1, names.idxOf e.2.1, e.2.2)
+
+/-- **a graph through a TXT file, end to end**: writing the graph `G` with representable, distinct
+    vertex names and reading the text back hands the constructor the same names and an edge list
+    that resolves to the canonical edge list of `G`, from which the constructor rebuilds the same
+    multiplicities, cached valences and edge total.  (Composition of `txt_graph_file_roundtrip`
+    with `graph_dict_roundtrip`.) -/
+theorem txt_graph_object_roundtrip (G : Graph n) (hG : G.WF) (names : List Txt.Str) (hlen : names.length = n)
+    (hnd : names.Nodup) (hok : ∀ f ∈ names, Txt.nameOK f = true) :
+    ∃ es G', Txt.readGraph (Txt.writeText (Txt.writeGraph names
+        (namedEdges G fun v => names[v.1]'(hlen ▸ v.2)))) = some (names, es) ∧
+      Graph.new n false (resolveEdges names es) = .ok G' ∧ G'.adj = G.adj ∧ G'.val = G.val ∧ G'.total = G.total := by
+  let nm : Fin n → Txt.Str := fun v => names[v.1]'(hlen ▸ v.2)
+  have hnm : ∀ v, nm v ∈ names := fun v => List.getElem_mem _
+  have hfile := txt_graph_file_roundtrip names (namedEdges G nm) hok (by
+    intro e he
+    obtain ⟨⟨a, b, k⟩, -, rfl⟩ := List.mem_map.mp he
+    exact ⟨hok _ (hnm a), hok _ (hnm b)⟩)
+  have hres : resolveEdges names (namedEdges G nm) = dictEdges G := by
+    unfold resolveEdges namedEdges dictEdges
+    rw [List.map_map]
+    apply List.map_congr_left
+    rintro ⟨a, b, k⟩ -
+    have ha : names.idxOf (nm a) = a.1 := List.get_idxOf hnd ⟨a.1, hlen ▸ a.2⟩
+    have hb : names.idxOf (nm b) = b.1 := List.get_idxOf hnd ⟨b.1, hlen ▸ b.2⟩
+    simp [ha, hb]
+  obtain ⟨G', h1, h2, h3, h4⟩ := graph_dict_roundtrip G hG
+  exact ⟨_, G', hfile, by rw [hres]; exact h1, h2, h3, h4⟩
+
+/-- **a divisor through a TXT file, end to end**: names, edge records and `(vertex, chips)` records
+    come back; resolved against the name list they rebuild the same graph and a divisor with the
+    same chip counts whose cached total is their sum -/
+theorem txt_divisor_object_roundtrip (G : Graph n) (hG : G.WF) (D : Fin n → Int) (names : List Txt.Str)
+    (hlen : names.length = n) (hnd : names.Nodup) (hok : ∀ f ∈ names, Txt.nameOK f = true) :
+    ∃ es recs G' d, Txt.readDivisor (Txt.writeText (Txt.writeDivisor names
+        (namedEdges G fun v => names[v.1]'(hlen ▸ v.2))
+        ((List.finRange n).map fun v => (names[v.1]'(hlen ▸ v.2), D v)))) = some (names, es, recs) ∧
+      Graph.new n false (resolveEdges names es) = .ok G' ∧ G'.adj = G.adj ∧ G'.val = G.val ∧ G'.total = G.total ∧
+      Divisor.new (recs.map fun r => (names.idxOf r.1, r.2)) = .ok d ∧ d.deg = D ∧ d.total = deg D := by
+  let nm : Fin n → Txt.Str := fun v => names[v.1]'(hlen ▸ v.2)
+  have hnm : ∀ v, nm v ∈ names := fun v => List.getElem_mem _
+  have hidx : ∀ v : Fin n, names.idxOf (nm v) = v.1 := fun v => List.get_idxOf hnd ⟨v.1, hlen ▸ v.2⟩
+  have hfile := txt_divisor_file_roundtrip names (namedEdges G nm) ((List.finRange n).map fun v => (nm v, D v)) hok
+    (by
+      intro e he
+      obtain ⟨⟨a, b, k⟩, -, rfl⟩ := List.mem_map.mp he
+      exact ⟨hok _ (hnm a), hok _ (hnm b)⟩)
+    (by
+      intro r hr
+      obtain ⟨v, -, rfl⟩ := List.mem_map.mp hr
+      exact hok _ (hnm v))
+  have hres : resolveEdges names (namedEdges G nm) = dictEdges G := by
+    unfold resolveEdges namedEdges dictEdges
+    rw [List.map_map]
+    apply List.map_congr_left
+    rintro ⟨a, b, k⟩ -
+    simp [hidx a, hidx b]
+  have hrecs : ((List.finRange n).map fun v => (nm v, D v)).map (fun r => (names.idxOf r.1, r.2)) =
+      (List.finRange n).map fun v => (v.1, D v) := by
+    rw [List.map_map]
+    apply List.map_congr_left
+    intro v _
+    simp [hidx v]
+  obtain ⟨G', h1, h2, h3, h4⟩ := graph_dict_roundtrip G hG
+  obtain ⟨d, hd1, hd2, hd3⟩ := divisor_dict_roundtrip D
+  exact ⟨_, _, G', d, hfile, by rw [hres]; exact h1, h2, h3, h4, by rw [hrecs]; exact hd1, hd2, hd3⟩
 
 end CF.C15
